@@ -5,7 +5,7 @@
    the free vector, resize, clear, operator=, copy construction, and swap (which exchanges the two
    vectors but not the const m_blockSize).  Specification: a list.  Definitions only. *)
 From Coq Require Import List Arith Bool.
-Require Import XV.GenCont XV.ContVecDefs.
+Require Import XV.GenCont XV.ContVecDefs XV.ContMapDefs.
 Import ListNotations.
 
 Record xdeq := mkdeq { q_bs : nat; q_blocks : list vec; q_free : list vec }.
@@ -53,14 +53,11 @@ Definition dcopy (r : xdeq) : xdeq := dpush_all (new_deq (q_bs r)) (delems r).
 Definition dctor (n bs : nat) : xdeq := dpush_n n 0 (new_deq bs).
 Definition dswap_into (a b : xdeq) : xdeq := mkdeq (q_bs a) (q_blocks b) (q_free b).
 
+(* operator[](i) = x : the block index / blockSize, position index % blockSize *)
 Definition set_block (d : xdeq) (i : nat) (x : nat) : xdeq :=
-  let bi := i / q_bs d in
   mkdeq (q_bs d)
-        (firstn bi (q_blocks d) ++
-         match skipn bi (q_blocks d) with
-         | [] => []
-         | b :: t => mkvec (set_nth (i mod q_bs d) x (vdata b)) (vcap b) :: t
-         end) (q_free d).
+        (upd_bucket (i / q_bs d) (fun b => mkvec (set_nth (i mod q_bs d) x (vdata b)) (vcap b)) (q_blocks d))
+        (q_free d).
 
 Inductive dop :=
 | DPush (x : nat) | DPop | DBack | DIdx (i : nat) | DSetIdx (i x : nat) | DResize (n : nat) | DClear | DIter | DRIter
